@@ -11,10 +11,38 @@ def run(cx):
     T.to_mef_all(cx, want=('SAMELAW', 'WRITESET', 'SCALARPATH'))
     T.transform_all(cx)
     c08.high_low(cx)
+    # the stored limits are written by the conversions only (on their own copy): no sample method, statistic,
+    # gate or plot function stores into the sample it is given (effect analysis shared with C13)
+    from . import c13
+    from .. import mut
+    from ..core import norm_stmt
+    prog = mut.Program(cx.repo).solve()
+    n = 0
+    for q in sorted(prog.funcs):
+        if not c13.in_scope(prog, q) or q.split('.')[0] not in ('io', 'gate', 'stats', 'plot'):
+            continue
+        mod, f, cls = prog.funcs[q]
+        n += 1
+        cx.functions_analysed.add(q)
+        evs = [ev for ev in prog.events.get(q, []) if any(t.startswith('P:') for t in ev.tags)]
+        seen = set()
+        for ev in evs:
+            k = norm_stmt(ev.node)[:100]
+            if k in seen:
+                continue
+            seen.add(k)
+            cx.ob('RANGEWRITE', 'a sample (and with it its stored range limits) is not written by anything but the conversions on their own copy',
+                  False, mod, ev.node, q, detail='%s may reach %s' % (ev.what, ', '.join(sorted(t for t in ev.tags if t.startswith('P:')))),
+                  key='write|' + k)
+        if not evs:
+            cx.ob('RANGEWRITE', 'a sample (and with it its stored range limits) is not written by anything but the conversions on their own copy',
+                  True, mod, f, q, key='clean')
+    cx.floor('RANGEWRITE', n, 40, 'sample methods, gates, statistics and plot functions')
     cx.decided += [
         'derived samples own their range lists (__array_finalize__ deep-copies every attribute that is not immutable), so converting a copy cannot move the source\'s limits',
         'in transform, to_rfi and to_mef the range limits of a converted channel are pushed through the very callable applied to its events',
         'ranges of other channels are never stored to',
+        'no sample method (hist_bins, range, ...), gate, statistic or plot function stores into its argument: the stored limits change only through the conversions',
         'the high/low gate reads its default thresholds from range() of the gated channels and compares strictly',
     ]
     cx.decided += ['SCALARPATH: whether limits and events take the same numeric route - they do not for the log law of to_rfi and for the curves of to_mef (recorded as known findings with failing inputs); the linear law x/g is exactly rounded on both routes']
